@@ -1,6 +1,7 @@
 """Shared machinery of the libcappuccino verification framework: harness builds, script
 generation, execution on the real containers, TLC trace validation, delta debugging and
 evidence writing.  See DESIGN.md."""
+import fcntl
 import hashlib
 import json
 import os
@@ -9,6 +10,7 @@ import re
 import shutil
 import subprocess
 import sys
+import threading
 import time
 from concurrent.futures import ThreadPoolExecutor
 
@@ -67,8 +69,23 @@ def tree_hash(extra=""):
     return h.hexdigest()[:16]
 
 
+_build_lock = threading.Lock()
+
+
 def build(flavour="plain", program="exec"):
-    """Build harness program (exec | conc) in the given flavour; returns the binary path."""
+    """Build harness program (exec | conc) in the given flavour; returns the binary path.
+    Serialised within the process and, through a lock file, across processes."""
+    os.makedirs(os.path.join(OUT, "build"), exist_ok=True)
+    with _build_lock:
+        with open(os.path.join(OUT, "build", ".lock"), "w") as lf:
+            fcntl.flock(lf, fcntl.LOCK_EX)
+            try:
+                return _build(flavour, program)
+            finally:
+                fcntl.flock(lf, fcntl.LOCK_UN)
+
+
+def _build(flavour, program):
     flags = BASE_FLAGS + FLAVOURS[flavour]
     hh = tree_hash(flavour + " ".join(flags))
     bdir = os.path.join(OUT, "build", hh)
@@ -109,7 +126,8 @@ def build(flavour="plain", program="exec"):
             raise InfraError("harness link failed:\n" + r.stdout[-3000:])
     # keep the cache small: drop all but the 6 most recent build dirs
     root = os.path.join(OUT, "build")
-    ds = sorted((os.path.join(root, d) for d in os.listdir(root)), key=os.path.getmtime, reverse=True)
+    ds = sorted((os.path.join(root, d) for d in os.listdir(root) if not d.startswith(".")), key=os.path.getmtime,
+                reverse=True)
     for d in ds[6:]:
         shutil.rmtree(d, ignore_errors=True)
     return binp
@@ -354,11 +372,12 @@ def write_tlc_cfg(path, keys, strict):
         f.write("POSTCONDITION TraceAccepted\nCHECK_DEADLOCK FALSE\n")
 
 
-def tlc_trace(trace_path, strict, keys, workdir, name, module="SeqTrace", timeout=900, heap="3g", extra_env=None):
+def tlc_trace(trace_path, strict, keys, workdir, name, module="SeqTrace", timeout=900, heap="3g", extra_env=None,
+              cfg_writer=None):
     """Validate one ndjson log.  Returns dict(accepted, depth, n, rc, out)."""
     os.makedirs(workdir, exist_ok=True)
     cfgp = os.path.join(workdir, name + ".cfg")
-    write_tlc_cfg(cfgp, keys, strict)
+    (cfg_writer or write_tlc_cfg)(cfgp, keys, strict)
     md = os.path.join(workdir, name + ".md")
     shutil.rmtree(md, ignore_errors=True)
     env = dict(os.environ)
